@@ -7,6 +7,7 @@ rejected".
 """
 from __future__ import annotations
 
+import jax
 import jax.numpy as jnp
 import numpy as np
 
@@ -328,10 +329,67 @@ def half_case(ctx: Ctx, stream: str, i: int) -> None:
                 ctx.case(sx(req), True, sample=None)
 
 
+def twin_case(ctx: Ctx, stream: str, i: int) -> None:
+    """`X.I @ Y` and `Y @ X.I` collapse to the identity only when `Y` IS `X`.  Twins: operators of the same class that
+    hold the very same array objects but differ in their static data (axes, nesting), or that hold no arrays at all."""
+    from furax._base.core import CompositionOperator, InverseOperator
+    from furax._base.diagonal import DiagonalOperator
+    from furax._base.axes import MoveAxisOperator
+    rng = ctx.rng(stream, i)
+    n = rng.choice([2, 3])
+    s = jax.ShapeDtypeStruct((n, n), jnp.float32)
+    w = gen.arr([rng.choice([1.0, 2.0, 4.0, 0.5, -1.0, 3.0]) for _ in range(n)], jnp.float32)
+    kind = rng.choice(['diagonal-axes', 'diagonal-axes', 'composition', 'lazy-inverse-of-composition'])
+    d0 = DiagonalOperator(w, axis_destination=0, in_structure=s)
+    d1 = DiagonalOperator(w, axis_destination=1, in_structure=s)     # same array object, other axis
+    if kind == 'diagonal-axes':
+        x, y = (d0, d1) if rng.random() < 0.5 else (d1, d0)
+        xi = x.I
+    elif kind == 'composition':
+        m = MoveAxisOperator(0, 1, in_structure=s)
+        x, y = CompositionOperator([d0, m]), CompositionOperator([d1, m])
+        xi = InverseOperator(x)
+    else:
+        sq = gen.mk_diagonal(rng, s)
+        x, y = CompositionOperator([d0, sq]), CompositionOperator([d1, sq])
+        xi = InverseOperator(x)
+    for label, f, a, b in (('X.I@Y', lambda: xi @ y, xi, y), ('Y@X.I', lambda: y @ xi, y, xi),
+                           ('X.I@X', lambda: xi @ x, xi, x), ('X@X.I', lambda: x @ xi, x, xi)):
+        enc = Encoder()
+        ea, eb = enc.op(a), enc.op(b)
+        enc.freeze()
+        req = ['matmul', ea, eb]
+        status, res = safe(f)
+        desc = {'kind': kind, 'product': label, 'expr': sx(req)[:2000]}
+        if status != 'ok':
+            ctx.fail(stream, i, f'arith-raises-{status}:@', f'{label} raised {status}: {res}', desc)
+            continue
+        if kind == 'diagonal-axes':
+            # (the solver-based lazy inverse of a composition — not symmetric positive definite here — is compared
+            # through the form of the product only)
+            st, got = safe(gen.dense, res)
+            expect = gen.dense(a) @ gen.dense(b)
+            if st != 'ok' or not gen.close(got, expect, 1e-3):
+                ctx.fail(stream, i, f'arith-changes-map:@:twin:{kind}', f'{label}: the product of an inverse with a '
+                         f'DIFFERENT operator sharing its arrays does not denote the matrix product', desc)
+        reply = ctx.model.ask(req)
+        if reply[0] != 'ok':
+            ctx.disagree(stream, i, f'{label}: model replied {sx(reply)[:150]}', desc)
+        else:
+            d = first_diff(reply[1], enc.op(res))
+            if d is not None:
+                ctx.disagree(stream, i, f'{label}: result differs at {d[0]}: model {d[1]!r:.150} impl {d[2]!r:.150}', desc)
+        ctx.case(sx(req), True, sample=None)
+    ctx.count('twin:' + kind)
+
+
 def run(ctx: Ctx) -> None:
     for i in range(40 if ctx.tier == 'quick' else 800):
         if ctx.want('grouping', i):
             grouping_case(ctx, 'grouping', i)
+    for i in range(24 if ctx.tier == 'quick' else 400):
+        if ctx.want('twin', i):
+            twin_case(ctx, 'twin', i)
     for i in range(10 if ctx.tier == 'quick' else 200):
         if ctx.want('half', i):
             half_case(ctx, 'half', i)
